@@ -54,3 +54,32 @@ def cases(tier):  # noqa: F811
     for s in (["count"], ["cutoff"], ["count", "cutoff"], ["cutoff", "count"], ["count", "count"]):
         cs.append(dict(name="wrappers.fp." + "/".join(s), fn=h_stack, params=dict(kinds=list(s), m=4), profile="fp", oblig_timeout_s=120, budget_s=900))
     return cs
+
+
+def h_prefix(P, nmax=30, seed=1):
+    """C04 budget-prefix clause: for a fixed seed, minimize(maxfun=N2) replays the evaluations of minimize(maxfun=N1) as a prefix for
+    every N1 < N2 <= nmax (both budgets symbolic), and never returns a worse result."""
+    import numpy as np
+    from pyhms.hms import minimize
+
+    bounds = np.array([[-2.0, 1.0], [-1.0, 3.0]])
+    n1 = P.int("n1", 1, nmax - 1)
+    n2 = P.int("n2", 2, nmax)
+    P.assume(n1 < n2)
+    logs = []
+    results = []
+    for N in (n1, n2):
+        calls = []
+
+        def fun(x, calls=calls):
+            x = np.asarray(x, dtype=np.float64)
+            calls.append(tuple(x.tolist()))
+            return float(np.sum((x - 0.25) ** 2))
+
+        results.append(minimize(fun, bounds, maxfun=N, seed=seed))
+        logs.append(calls)
+    P.oblige("C04.larger_budget_replays_smaller_as_prefix", logs[1][: len(logs[0])] == logs[0])
+    P.oblige("C04.larger_budget_never_worse", results[1].fun <= results[0].fun)
+
+
+h_prefix.env_opts = {"rng": "real"}
